@@ -147,6 +147,32 @@ def run(chk, w):
                 else:
                     chk.violation("C20-INIT", g.name, c.callee, c.loc(), "initial values are commanded through %s, not through a public high-level command (encoding may differ)" % c.callee)
 
+    # ---- ALL: the loops over the configured initial values and over the track outputs run to completion
+    chk.rule("C20-ALL", "the loops that apply the initial values are left only through their own bound: a failing command for one entry or one track output does not end the walk "
+                        "over the remaining ones")
+    nall = 0
+    for ic in init_c:
+        g = inline.expanded(P, ic.callee)
+        for h, body in g.loops().items():
+            nall += 1
+            bad = None
+            for b in sorted(body):
+                if b == h:
+                    continue
+                t = g.bmap[b].term
+                if t.op == "br" and "cond" in t.d and t["t"] != t.get("f") and (t["t"] not in body or t["f"] not in body):
+                    # an exit from the middle of the loop: allowed only when it is itself a loop-bound test of an inner loop (its target stays in an enclosing loop's body via the latch)
+                    inner_heads = [h2 for h2, body2 in g.loops().items() if h2 != h and b in body2 and body2 < body]
+                    if b in inner_heads:
+                        continue
+                    bad = t
+            if bad is not None:
+                chk.violation("C20-ALL", g.name, "early-exit@%d" % bad.line, bad.loc(), "the loop at line %d over configured initial values / track outputs can be left at line %d before its bound is reached: "
+                              "the entries and outputs behind the failing one are never commanded" % (g.bmap[h].insts[0].line, bad.line))
+            else:
+                chk.ok("C20-ALL", 1, None)
+    chk.floor("initial_value_loops", nall, 4)
+
     # ---- INIT (cont.): whether an initial value is commanded must not depend on feedback state
     from .c02 import _cond_loads
     for ic in init_c:
